@@ -272,6 +272,33 @@ Proof.
   cbn [enc] in H. destruct b; vm_compute in H; discriminate.
 Qed.
 
+(** * 8. Truncated and foreign input *)
+(* a byte string whose data ends before the announced length is refused, below and above the
+   4096-byte threshold of readN alike *)
+Theorem C10_bytes_truncated_refused : forall n d a p, n < two24 -> N.of_nat (length d) < n ->
+  fst (read_byte_slice (mkst (bytes_header n ++ d) a p)) = Err EEof.
+Proof. exact read_byte_slice_truncated. Qed.
+
+(* a reader that hands back whatever arrived (io.ReadAll over a LimitReader) accepts a byte string
+   shorter than its own prefix, which the wire format does not: refuted as a design *)
+Definition lenient_read_bytes (bs : bytes) : option bytes :=
+  match bs with
+  | 254 :: b1 :: b2 :: b3 :: d => Some (firstn (N.to_nat (le_num [b1; b2; b3])) d)
+  | _ => None
+  end.
+Theorem C10_lenient_readN_refuted :
+  exists bs, lenient_read_bytes bs = Some [] /\ dec_bytes bs = None /\
+             fst (read_byte_slice (st0 bs)) = Err EEof.
+Proof. exists [254; 1; 16; 0]. vm_compute. repeat split; reflexivity. Qed.
+
+(* an answer under a constructor id that is neither liteServer.error's nor the result's is refused
+   (the generated methods and, by correspondence, WaitMasterchainBlock / WaitMasterchainSeqno) *)
+Theorem C10_response_foreign_id_refused : forall B m resp, short 4 resp = false ->
+  le_num (firstn 4 resp) <> m_err_id m -> ~ In (le_num (firstn 4 resp)) (m_resp_ids m) ->
+  go_response B m resp = Err EInvalid.
+Proof. exact go_response_foreign. Qed.
+
+Print Assumptions C10_bytes_truncated_refused.
 Print Assumptions C10_lc_request_is_adnl_query.
 Print Assumptions C10_bool_decoder_exact.
 Print Assumptions C10_hand_account_id_layout.
